@@ -33,22 +33,19 @@ func (f *Expand) Apply(inputs []tensor.Tensor) ([]tensor.Tensor, error) {
 		return nil, err
 	}
 
-	// If the new shape has more dimensions than the input tensor, we
-	// need to prepend some dimensions to the input tensor shape.
-	if len(shape) > len(input.Shape()) {
-		input, err = ops.AddExtraDimsToTensor(input, len(shape)-len(input.Shape()))
-		if err != nil {
-			return nil, err
+	for _, dim := range shape {
+		if dim < 1 {
+			return nil, ops.ErrInvalidTensor("the requested shape must have positive dimensions", f)
 		}
 	}
 
-	for axis := len(shape) - 1; axis >= 0; axis-- {
-		if input.Shape()[axis] != shape[axis] {
-			input, err = tensor.Repeat(input, axis, shape[axis])
-			if err != nil {
-				return nil, err
-			}
-		}
+	// Expand is a multidirectional broadcast of the input against a tensor of the
+	// requested shape.
+	target := tensor.New(tensor.WithShape(shape...), tensor.Of(input.Dtype()))
+
+	input, _, err = ops.MultidirectionalBroadcast(input, target)
+	if err != nil {
+		return nil, err
 	}
 
 	return []tensor.Tensor{input}, nil
